@@ -48,13 +48,13 @@ AVX512 == {"avx", "avx2"} \cup G1
 \* what each implementation family is declared to need (headers' @requires, FIPS.md, file names)
 FamilyRequires(fam) ==
   CASE fam = "base" -> {}
-    [] fam \in {"sse", "x4", "x8", "00", "sb_sse4"} -> {"sse4_1"}
+    [] fam \in {"sse", "x4", "00", "sb_sse4"} -> {"sse4_1"}
     [] fam = "sse_ni" -> {"sse4_1", "sha"}
-    [] fam \in {"avx", "avx_gen2"} -> {"avx"}
+    [] fam \in {"avx", "avx_gen2", "x8"} -> {"avx"}          \* cbc_enc_*_x8 is the VEX-encoded eight-buffer variant
     [] fam \in {"avx2", "avx_gen4", "04"} -> {"avx", "avx2"}
     [] fam = "avx512" -> AVX512
     [] fam = "avx512_ni" -> AVX512 \cup {"sha"}
-    [] fam \in {"vaes_avx512", "vaes"} -> AVX512 \cup {"vaes", "vpclmulqdq"}
+    [] fam \in {"vaes_avx512", "vaes"} -> AVX512 \cup G2      \* "AVX512 update": the resolver demands all of group 2
 KnownFamilies == {"base", "sse", "x4", "x8", "00", "sb_sse4", "sse_ni", "avx", "avx_gen2", "avx2", "avx_gen4", "04", "avx512",
                   "avx512_ni", "vaes_avx512", "vaes"}
 
